@@ -246,3 +246,63 @@ def server_number(g):
     """GridServer -> server number, by serverid"""
     ids = {g.serverid(i): i for i in range(64)}
     return lambda s: ids[s.get_serverid()]
+
+
+# ----------------------------------------------------------------------------- a real Publish object without a grid
+
+class PublishNode:
+    """What Publish asks of its filenode (keys are real; nothing is sent anywhere)."""
+
+    def __init__(self, k, n, mdmf=False, size=6):
+        from allmydata.interfaces import SDMF_VERSION, MDMF_VERSION
+        self.k, self.n, self.size = k, n, size
+        self.version = MDMF_VERSION if mdmf else SDMF_VERSION
+        self.pub, self.priv = keypair()
+        self.hints = None
+
+    def get_storage_index(self): return b"\x01" * 16
+    def get_version(self): return self.version
+    def get_writekey(self): return b"w" * 16
+    def get_readkey(self): return b"r" * 16
+    def get_required_shares(self): return self.k
+    def get_total_shares(self): return self.n
+    def get_pubkey(self): return self.pub
+    def get_privkey(self): return self.priv
+    def get_encprivkey(self): return b"e" * 1216
+    def get_write_enabler(self, server): return b"we" * 16
+    def get_renewal_secret(self, server): return b"rs" * 16
+    def get_cancel_secret(self, server): return b"cs" * 16
+    def get_size(self): return self.size
+    def set_downloader_hints(self, hints): self.hints = hints
+
+
+class PublishBroker:
+    def __init__(self, servers):
+        self.servers = servers
+
+    def get_servers_for_psi(self, si, for_upload=True):
+        return list(self.servers)
+
+
+def real_publish(k, n, servers, servermap=None, mdmf=False, op="publish", version=None, data=b"abcdef"):
+    """A Publish built by its real __init__ and initialised by the real publish()/update() set-up code (so that
+    whatever internal attributes the class keeps exist in the shape the class itself gives them); the encode/push
+    pipeline is not started (`_push` is stubbed during the call).  Returns (publish, error-or-None)."""
+    from allmydata.mutable import publish as P
+    for s in servers:
+        if not hasattr(s, "get_storage_server"):
+            s.get_storage_server = lambda: None
+    node = PublishNode(k, n, mdmf, len(data))
+    p = P.Publish(node, PublishBroker(servers), servermap)
+    p._push = lambda ignored=None: None
+    err = None
+    try:
+        if op == "publish":
+            p.publish(P.MutableData(data))
+        else:
+            p.update(P.MutableData(data), 0, {}, version)
+    except Exception as e:            # the set-up may need more than the stubs give; what it set before is kept
+        err = e
+    finally:
+        del p._push
+    return p, err
